@@ -2,10 +2,10 @@ SPECIFICATION Spec
 CONSTANTS
   Reqs = {"r1", "r2", "r3"}
   Bad = {"r3"}
-  Shapes = {{"parm", "partvar", "loc"}}
+  Shapes = {{"parm", "partvar", "loc", "pkg"}}
   MaxEvict = 1
-  Impl = "asis"
-  Lock = "fixed"
-INVARIANTS TypeOK Isolated NoForeignSymbols SavedIsNeutral NoCrash ScDiscipline NoLostWakeup
+  Defects = {"parts", "unsaved", "unlock"}
+  Lock = TRUE
+INVARIANTS Isolated NoCrash
 VIEW View
 CHECK_DEADLOCK FALSE
